@@ -53,6 +53,14 @@ func (s *Sim) stepExt(op *Op) bool {
 			sl.heldAcks = sl.heldAcks[1:]
 			s.clientAck(sl, p.Type, p.PacketID)
 		}
+	case "failwrite":
+		// fault injection: the broker's N-th next write on this connection fails (N>=1)
+		n := op.N
+		if n < 1 {
+			n = 1
+		}
+		s.Slots[op.C].Conn.MC.FailWriteAt(n)
+		s.M.count("write_faults_armed")
 	case "raw":
 		// handled by specialised checks
 	default:
@@ -128,6 +136,9 @@ func (s *Sim) opTick(op *Op) {
 	}
 	x.lastSweep = m.Now
 	x.sweeps++
+	// virtual time: every stored timestamp becomes Delta seconds older, then housekeeping runs on the real clock
+	s.B.S.VerifAgeState(op.Delta)
+	now = s.realNow()
 	s.B.S.VerifSendDelayedLWT(now)
 	s.B.S.VerifClearExpiredClients(now)
 	s.B.S.VerifClearExpiredRetainedMessages(now)
@@ -145,6 +156,7 @@ func (s *Sim) willDue(sess *Session, w *Will, why string, sessionEnds, resumedBy
 	if w.Delay > 0 && sess.Ver == 5 && !sessionEnds {
 		if resumedByTakeover {
 			m.count("delayed_will_cancelled_by_takeover")
+			m.setWillDisp(w, "cancelled_by_takeover")
 			return
 		}
 		d := int64(w.Delay)
@@ -152,6 +164,7 @@ func (s *Sim) willDue(sess *Session, w *Will, why string, sessionEnds, resumedBy
 			d = int64(sess.Expiry)
 		}
 		x.pendingWill[sess.ID] = &pendingWill{Sess: sess, W: w, DueAt: m.Now + d}
+		m.setWillDisp(w, "pending_delay")
 		m.count("delayed_will_registered")
 		return
 	}
@@ -166,14 +179,25 @@ func (s *Sim) publishWill(sess *Session, w *Will, why string) {
 	}
 	if !refmatch.ValidPublishTopic(w.Topic) || containsWildcard(w.Topic) || s.Cfg.Denied(sess.ID, w.Topic, true) {
 		m.count("will_refused")
+		m.setWillDisp(w, "refused")
 		return
 	}
 	msg.Step = m.Step
 	msg.PubAt = m.Now
+	msg.WillWhy = why
 	if e := s.effectiveExpiry(0); e > 0 {
 		msg.ExpAt = m.Now + e
 	}
+	// a delayed will that fires while a newer connection holds the same client id erases that connection's will
+	if why == "delay-elapsed" {
+		if t := m.Sessions[msg.From]; t != nil && t.Slot != nil && t.WillSlot != nil && t.WillSlot.Payload != msg.ID {
+			if wm := m.Msgs[t.WillSlot.Payload]; wm != nil {
+				wm.WillErasedRisk = true
+			}
+		}
+	}
 	m.count("wills_expected")
+	m.setWillDisp(w, "published")
 	s.route(msg)
 }
 
@@ -202,6 +226,7 @@ func (s *Sim) pendingWillOnConnect(id string, clean bool) {
 		return
 	}
 	m.count("delayed_will_cancelled_by_resume")
+	m.setWillDisp(pw.W, "cancelled_by_resume")
 }
 
 // inboundAlias resolves/validates the topic alias of a client publish. Returns false if the
@@ -284,4 +309,11 @@ func (s *Sim) progressCheck() {
 			return
 		}
 	}
+}
+
+func (m *Model) setWillDisp(w *Will, d string) {
+	if m.WillDisp == nil {
+		m.WillDisp = map[string]string{}
+	}
+	m.WillDisp[w.Payload] = d
 }
